@@ -157,7 +157,7 @@ class moduint(object):
     def __hex__(self):
         return hex(self.arg)
     def __abs__(self):
-        return abs(self.arg)
+        return self.__class__(abs(self.arg))
     def __rpow__(self, v):
         return v**self.arg
     def __pow__(self, v):
